@@ -3,7 +3,9 @@ from ffi.dlopen() (in-line FFI and out-of-line ABI module) and reports one event
 operation.  Started by harness/life_dl.py with LD_PRELOAD=<interposer>, which records every
 dlopen/dlsym/dlclose call the process makes.
 
-stdin : one JSON line per batch: [{"id":..,"mode":"inline"|"outofline","ops":[[ev,l,n,arg,x,file],..]},..]
+stdin : one JSON line per batch: [{"id":..,"mode":"inline"|"outofline","ops":[[ev,l,n,arg,x,file,how],..]},..]
+        how (open only): "path" = ffi.dlopen(path, flags); "handle" = h = dlopen(path, flags) called by the
+        program itself (through ctypes), then ffi.dlopen(ffi.cast("void *", h))
 stdout: one JSON line per job: {"id":..,"events":[..]}       (normal mode)
         careful mode (used to re-run a job during which a worker died): {"id":..,"at":op index}
         before and {"id":..,"event":{..}} after every operation, then {"id":..,"done":true}
@@ -23,9 +25,23 @@ def main():
     drain.restype = ctypes.c_int
     buf = ctypes.create_string_buffer(1 << 16)
 
+    libc = ctypes.CDLL(None)
+    raw_dlopen, raw_dlclose = libc.dlopen, libc.dlclose      # resolve to the interposer's wrappers
+    raw_dlopen.restype, raw_dlopen.argtypes = ctypes.c_void_p, [ctypes.c_char_p, ctypes.c_int]
+    raw_dlclose.restype, raw_dlclose.argtypes = ctypes.c_int, [ctypes.c_void_p]
+    balance = {}               # handle -> dlopen() calls minus dlclose() calls on the test libraries
+
     def take():
         n = drain(buf, len(buf))
-        return buf.raw[:n].decode("ascii", "replace").splitlines() if n else []
+        lines = buf.raw[:n].decode("ascii", "replace").splitlines() if n else []
+        for ln in lines:
+            f = ln.split()
+            if f[0] == "O" and f[2] in testfiles:
+                balance[f[1]] = balance.get(f[1], 0) + 1
+            elif f[0] == "C" and f[1] in balance:
+                balance[f[1]] -= 1
+        return lines
+    testfiles = set(cfg["libs"].values())
 
     ffi_in = cffi.FFI()
     ffi_in.cdef(cfg["cdef"])
@@ -44,6 +60,7 @@ def main():
         for opi, op in enumerate(job["ops"]):
             ev, l, n, arg, x = op[0], op[1], op[2], op[3], op[4]
             fil = op[5] if len(op) > 5 else "a"
+            how = op[6] if len(op) > 6 else "path"
             if ev != "open" and l not in libs:
                 continue
             if ev == "call" and not (isopen.get(l) and (l, n) in funcs):
@@ -55,7 +72,13 @@ def main():
                 out.flush()
             take()
             try:
-                if ev == "open":
+                if ev == "open" and how == "handle":
+                    h = raw_dlopen(cfg["libs"][fil].encode(), flagv[arg] or ffi_in.RTLD_NOW)
+                    if not h:
+                        raise RuntimeError("raw dlopen failed")
+                    lib = ffi.dlopen(ffi.cast("void *", h))
+                    libs[l] = lib
+                elif ev == "open":
                     lib = ffi.dlopen(cfg["libs"][fil], flagv[arg])
                     libs[l] = lib
                 elif ev == "getfunc":
@@ -93,7 +116,7 @@ def main():
                 cls = sum(1 for ln in log if ln.startswith("C ") and ln.split()[1] in (h, "(nil)", "0"))
                 if ev == "close" and outc == "ok":
                     isopen[l] = False
-            e = {"ev": ev, "l": l, "n": n, "arg": arg, "x": x, "out": outc, "exc": exc, "val": val,
+            e = {"ev": ev, "l": l, "n": n, "arg": arg, "x": x, "how": how if ev == "open" else "", "out": outc, "exc": exc, "val": val,
                  "sym": sym, "cls": cls, "touch": sym + cls, "d": [], "p": []}
             if inline and l in libs:
                 e["d"] = sorted(k[len(PREFIX):] for k in libs[l].__dict__ if k.startswith(PREFIX))
@@ -111,6 +134,12 @@ def main():
                 except Exception:
                     pass
         take()
+        # references of the program (raw handles) that no ffi.dlclose() has consumed
+        for h, nref in list(balance.items()):
+            for _ in range(max(0, min(nref, 8))):
+                raw_dlclose(int(h, 16))
+        take()
+        balance.clear()
         return events
 
     for line in sys.stdin:
